@@ -3,10 +3,11 @@
    Z / positive / nat stay the extracted inductives.  No Extract Constant. *)
 From Coq Require Extraction ExtrOcamlBasic.
 From PW Require Import Model.Base Model.SigTypes Model.Base64 Model.Utf8 Model.Cbor Model.Json Model.AuthData
-  Model.Oracles Model.ClientData Model.CredJson Model.Cose Model.SigAlg Model.VerifyAuth Model.Tpm Model.Formats Model.VerifyReg.
+  Model.Oracles Model.ClientData Model.CredJson Model.Cose Model.SigAlg Model.VerifyAuth Model.Tpm Model.Formats Model.VerifyReg Model.Options Model.OptionsJson.
 Extraction Language OCaml.
 Extraction "model.ml" b64url_enc b64url_dec b64std_enc be_int slice
   cbor_loads cbor_enc parse_auth_data parse_backup_flags aaguid_to_string
   parse_client_data parse_auth_cred_json parse_reg_cred_json decode_credential_public_key to_crypto
   verify_signature hash_by_alg verify_auth counter_ok rp_step bind
-  verify_reg parse_cert_info parse_pub_area attr_bit attr_positions timestamp_ok manufacturer_known.
+  verify_reg parse_cert_info parse_pub_area attr_bit attr_positions timestamp_ok manufacturer_known
+  gen_reg gen_auth creation_options_json request_options_json parse_reg_options_json parse_auth_options_json.
